@@ -1199,3 +1199,52 @@ def rand_prog(rng):
             if n < 0:
                 live.remove(hid)
     return {'isz': isz, 'nf': nf, 'prog': prog}
+
+
+KG_PRELUDE = '''
+Definition kg_final (isz : N) (ops : list op) : list N :=
+  match start isz with
+  | Err _ => [255; 255]
+  | Ok (fh, _) =>
+      (fix go (fh : fstate * handle) (ops : list op) : list N :=
+         match ops with
+         | [] => match fst fh with Some b => take (used (snd fh)) b | None => [] end
+         | o :: r => match step isz fh o with Err _ => [254; 254] | Ok (fh', _) => go fh' r end
+         end) fh ops
+  end.
+'''
+
+
+def kernel_guards(ctx, rep):
+    """A stateful model under the kernel guard: whole write/read/reopen histories are run by the extracted driver
+    (c10_run) and again by vm_compute on the Gallina start/step (kg_final, a fold written in the generated file); the used
+    part of the file after the last step must be the same bytes."""
+    import mmap
+    import random
+    from .incoq import kernel_guard, coq_bytes
+    rr = random.Random(ctx.seed * 977 + 3)
+    keys = ['', 'a', 'ab', 'abc', 'abcd', 'abcde', 'k\u00e9', '\U0001f600', 'x' * 9, 'y' * 40]
+    sample = []
+    for _ in range(ctx.n(60, 400)):
+        ops = []
+        for _ in range(rr.randrange(1, 9)):
+            r = rr.random()
+            k = rr.choice(keys).encode('utf-8')
+            if r < 0.7:
+                ops.append(('W', k, bytes(rr.getrandbits(8) for _ in range(8)), bytes(rr.getrandbits(8) for _ in range(8))))
+            elif r < 0.85:
+                ops.append(('R', k))
+            else:
+                ops.append(('O',))
+        isz = rr.choice([64, 128, 1024])
+        sxo = [(Sym(o[0]),) + tuple(o[1:]) for o in ops]
+        r = ctx.model.call('c10_run', isz, mmap.PAGESIZE, 1 << 20, sxo)
+        last = r[-1]
+        if last[0] == 'err' or last[0] == 'nofile':
+            continue
+        term = '[' + '; '.join('Write %s %s %s' % tuple(coq_bytes(x) for x in o[1:]) if o[0] == 'W' else
+                               'ReadV %s' % coq_bytes(o[1]) if o[0] == 'R' else 'Reopen' for o in ops) + ']'
+        sample.append(('(%d%%N, %s)' % (isz, term), bytes(d_bytes(last[2])).decode('latin-1')))
+    kernel_guard(rep, 'mmap_history', ['lib.PyBase', 'model.MmapDict'], '(fun c => kg_final (fst c) (snd c))', sample,
+                 prelude=KG_PRELUDE, shard=100)
+
